@@ -48,11 +48,17 @@ def gen_history(rng, schema, n_ops, ordered=False):
     return ops, metas
 
 
-def wrap_case(cid, schema, ops, metas, ordered):
+def wrap_case(cid, schema, ops, metas, ordered, first_id=None):
+    """first_id (2.x): the AUTOINCREMENT counters start there, as in a long-lived or merged library."""
     v2 = is_v2(schema)
     create = {"op": "lib_create_temporary", "schema": schema} if (ordered and v2) else {"op": "create_temporary", "schema": schema}
     full = [create, {"op": "note", "names": [FO.hx(n) for n in FO.VALID_NAMES]}]
     index = [None, None]
+    if first_id is not None and v2:
+        full.append({"op": "raw_exec", "sql": "DELETE FROM sqlite_sequence WHERE name IN ('Track', 'Playlist', 'PlaylistEntity')"})
+        full.append({"op": "raw_exec", "sql": "INSERT INTO sqlite_sequence (name, seq) VALUES ('Track', %d), ('Playlist', %d), ('PlaylistEntity', %d)"
+                     % (first_id - 1, first_id - 2, first_id - 3)})
+        index += [None, None]
     for i, op in enumerate(ops):
         full.append(op)
         index.append(i)
@@ -367,7 +373,113 @@ def scale_case(cid, rng, schema, n_tracks=160, huge_ids=False):
     return {"id": cid, "schema": schema, "ops": ops, "_scale": {"A": A, "B": B, "gone": gone, "n": n_tracks, "tail": tail}}
 
 
+def subtree_case(cid, rng, schema, n_subs=620):
+    """A root with hundreds of sub-crates (flat and nested) that all hold tracks is removed in one call; the tracks'
+    remaining memberships, and crates created afterwards (whose ids may be recycled on 1.x), are judged at the end."""
+    ops = [{"op": "create_temporary", "schema": schema}, {"op": "set_budget", "vdbe": 4 * 10 ** 9}]
+    nt = 24
+    for i in range(nt):
+        ops.append({"op": "create_track", "as": "t%d" % i, "snap": {"relative_path": FO.hx("sub/track %02d.mp3" % i)}})
+    ops.append({"op": "create_root_crate", "name": FO.hx("keep"), "as": "ckeep"})
+    ops.append({"op": "create_root_crate", "name": FO.hx("doomed"), "as": "cR"})
+    keep = [i for i in range(nt) if i % 3 != 1]
+    for i in keep:
+        ops.append({"op": "add_track", "c": "ckeep", "t": "t%d" % i})
+    subs = []
+    for k in range(n_subs):
+        h = "s%d" % k
+        # mostly flat, every 9th nested under an earlier sub-crate
+        p = "cR" if (k % 9 or not subs) else rng.choice(subs)
+        ops.append({"op": "create_sub_crate", "c": p, "name": FO.hx("sub %04d" % k), "as": h})
+        subs.append(h)
+        ops.append({"op": "add_track", "c": h, "t": "t%d" % (k % nt)})
+        ops.append({"op": "add_track", "c": h, "t": "t0"})
+    ops.append({"op": "remove_crate", "c": "cR"})
+    after = []
+    for k in range(6):
+        h = "n%d" % k
+        ops.append({"op": "create_root_crate", "name": FO.hx("new %d" % k), "as": h})
+        after.append(h)
+    tail = len(ops)
+    ops.append({"op": "db_query", "q": "crates"})
+    ops.append({"op": "crate_query", "c": "ckeep", "q": "tracks"})
+    for h in after:
+        ops.append({"op": "crate_query", "c": h, "q": "tracks"})
+    for i in range(nt):
+        ops.append({"op": "containing_crates", "t": "t%d" % i})
+    ops.append({"op": "rawdump", "checks": False, "views": ["Crate", "CrateTrackList"]})
+    return {"id": cid, "schema": schema, "ops": ops, "_scale": True,
+            "_subtree": {"n_subs": n_subs, "nt": nt, "keep": keep, "after": after, "tail": tail}}
+
+
+def judge_subtree(ctx, res):
+    case = res.case
+    schema = case["schema"]
+    fam = family(schema)
+    sc = case["_subtree"]
+    ctx.count()
+    ctx.bump("subtree_removal_cases")
+    ctx.extra["subtree_removal_max_crates"] = max(ctx.extra.get("subtree_removal_max_crates", 0), sc["n_subs"] + 1)
+    wit = {"schema": schema, "subtree": {"sub_crates": sc["n_subs"]}, "ops": case["ops"][-45:]}
+    evs = res.events
+    if res.crash or len(evs) < len(case["ops"]):
+        ctx.violation(f"op-did-not-complete {fam} subtree-removal", f"{schema}: removing a crate with {sc['n_subs']} sub-crates did not complete", wit)
+        return
+    hid = {}
+    for k, op in enumerate(case["ops"]):
+        if "as" in op and "ret" in evs[k]:
+            hid[op["as"]] = evs[k]["ret"]
+        if "exc" in evs[k] and k < sc["tail"]:
+            ctx.violation(f"bulk-op-throws {fam} {op['op']}", f"{schema}: {op['op']} threw {evs[k]['exc']['type']} in the subtree-removal case", wit)
+            return
+    k = sc["tail"]
+    crates = evs[k].get("ret")
+    want_crates = sorted([hid["ckeep"]] + [hid[h] for h in sc["after"]])
+    if crates is None or sorted(crates) != want_crates:
+        ctx.violation(f"subtree-removal-leaves-crates {fam}", f"{schema}: after removing the root of {sc['n_subs']} sub-crates, crates() has "
+                      f"{len(crates or [])} entries instead of {len(want_crates)}", wit)
+    got_keep = evs[k + 1].get("ret")
+    if got_keep is None or sorted(got_keep) != sorted(hid["t%d" % i] for i in sc["keep"]):
+        ctx.violation(f"bystander-crate-changed {fam} subtree-removal", f"{schema}: an unrelated crate's tracks changed when a big subtree was removed", wit)
+    k += 2
+    for j, h in enumerate(sc["after"]):
+        got = evs[k + j].get("ret")
+        if got is None or got != []:
+            ctx.violation(f"new-crate-not-empty {fam} subtree-removal", f"{schema}: a crate created after the removal of a big subtree "
+                          f"starts with tracks {got}", wit)
+            break
+    k += len(sc["after"])
+    for i in range(sc["nt"]):
+        e = evs[k + i]
+        if "exc" in e:
+            if not is_v2(schema):
+                ctx.violation(f"containing_crates-throws {fam}", f"{schema}: containing_crates() throws on a live track", wit)
+            continue
+        want = [hid["ckeep"]] if i in sc["keep"] else []
+        if sorted(e["ret"]) != want:
+            ctx.violation(f"containing_crates-mismatch {fam} subtree-removal", f"{schema}: after removing every other crate that held it, "
+                          f"track {i}.containing_crates() = {sorted(e['ret'])[:6]}, expected {want}", wit)
+            break
+    e = evs[k + sc["nt"]]
+    if "ret" in e:
+        from .. import rawread as RR
+        v2 = is_v2(schema)
+        mem = RR.table(e["ret"], "PlaylistEntity" if v2 else "CrateTrackList")
+        cr = RR.table(e["ret"], "Playlist" if v2 else "Crate")
+        if mem is None or cr is None:
+            ctx.fail_harness("membership tables not readable in the subtree-removal case")
+            return
+        ids = {c["id"] for c in cr}
+        stale = [m for m in mem if m["listId" if v2 else "crateId"] not in ids]
+        ctx.bump("subtree_removal_membership_rows_checked", len(mem))
+        if stale:
+            ctx.violation(f"membership-rows-of-removed-crate-remain {fam} subtree-removal",
+                          f"{schema}: {len(stale)} stored membership rows still name crates removed with the subtree", wit)
+
+
 def judge_scale(ctx, res):
+    if res.case.get("_subtree"):
+        return judge_subtree(ctx, res)
     case = res.case
     schema = case["schema"]
     fam = family(schema)
@@ -427,6 +539,8 @@ def run(ctx):
         if is_v2(schema):
             cases.append(scale_case("sh%d" % n, ctx.rng, schema, 40, huge_ids=True))
             n += 1
+        cases.append(subtree_case("st%d" % n, ctx.rng, schema, 620 if ctx.tier == "quick" else ctx.rng.choice([1100, 1700, 2300])))
+        n += 1
     runner.run_cases(cases, cfg="plain", on_result=lambda r: judge_scale(ctx, r) if r.case.get("_scale") else judge_case(ctx, r))
     seen = set(ctx.extra.get("cases_by_schema", {}))
     if seen != set(ALL_SCHEMAS):
